@@ -1,5 +1,6 @@
 """C03 — injected data is read, written and called faithfully."""
 import itertools
+import copy
 from langgen import *  # noqa
 
 PID = "C03"
@@ -63,6 +64,15 @@ def make_cases(rng, tier):
                 if not in_domain(path.split(".")[-1], cls, v):
                     continue
                 add(block([assign(("var", path), "=", ("math", mvar("src")))], rd(path)), [host(), inj_val("src", v)])
+    # a store of a value that COMPARES EQUAL to what the target holds but is not that value (the zeros of opposite sign), and of the
+    # very value it holds: the host sees the assigned value afterwards, sign bit included
+    for (cur, new_) in ((0.0, -0.0), (-0.0, 0.0), (-0.0, -0.0), (2.5, 2.5)):
+        for path, t in (("h.F64", "f64"), ("h.F32", "f32"), ("h.Sub.F", "f64"), ("h.PSub.F", "f64")):
+            fields = {"F64": tv_float("f64", cur), "F32": tv_float("f32", cur)}
+            hh = inj_struct("h", fields=fields, sub={"F": tv_float("f64", cur)}, psub={"F": tv_float("f64", cur)})
+            for st in ("f64", "f32"):
+                add(block([assign(("var", path), "=", ("math", mvar("src")))], rd(path)), [copy.deepcopy(hh), inj_val("src", tv_float(st, new_))])
+        add(block([assign(("var", "p"), "=", ("math", mvar("src")))]), [inj_ptr("p", tv_float("f64", cur)), inj_val("src", tv_float("f64", new_))])
     # struct by value is not assignable; reading works
     add(block([assign(("var", "hv.I64"), "=", ("math", mint(5)))]), [dict(host(), name="hv", kind="structv")])
     add(block([], rd("hv.Sub.N")), [dict(host(), name="hv", kind="structv")])
@@ -203,7 +213,7 @@ def nontrivial(c, o):
 
 RULE = ("systematic: writes `target = src` for every target in 16 struct-field paths (one and two levels, by value and by pointer) x 5 source classes x source values (boundaries of every width); pointer-injected scalars of all 14 kinds x source classes; "
         "maps with string / int64 / variable keys, slices and arrays with literal / variable indexes, injected directly and by pointer, over 8 (thorough 14) element kinds; key coercion and out-of-range / negative / string indexes; container fields of a struct; "
-        "calls of every catalogue function with every argument class, arity faults, missing functions, panicking functions, methods and three-level calls; shadowing of injected names; reads of missing names / fields; random programs; six driver-stated scenarios in which the host injects an object / a function / a key under a name the rule has already bound as a local (method, three-level and function calls must then reach the injected one; m[k] and m[k] += 1 must use the injected k); every third text executed a second time after fresh objects were re-injected under the same names into the same data context; "
+        "stores of a zero of the opposite sign (and of the very value held) into float fields and pointer-injected floats; calls of every catalogue function with every argument class, arity faults, missing functions, panicking functions, methods and three-level calls; shadowing of injected names; reads of missing names / fields; random programs; six driver-stated scenarios in which the host injects an object / a function / a key under a name the rule has already bound as a local (method, three-level and function calls must then reach the injected one; m[k] and m[k] += 1 must use the injected k); every third text executed a second time after fresh objects were re-injected under the same names into the same data context; "
         "compared: returned value, recorded calls with the dynamic types of the received arguments, and the WHOLE host store afterwards (so untouched data is checked too); distinct non-trivial = distinct (target path, source kind, container kinds) whose run succeeded")
 
 
